@@ -29,6 +29,7 @@ type slicer struct {
 	p        *Program
 	maxDepth int
 	storeIdx map[*ssa.Function]map[string][]*ssa.Store
+	stop     func(ssa.Value) bool // values treated as leaves (not traversed further)
 }
 
 func newSlicer(p *Program) *slicer {
@@ -114,6 +115,9 @@ func (s *slicer) walk(v ssa.Value, res *sliceRes, depth int) {
 	res.Vals[v] = true
 	if in, ok := v.(ssa.Instruction); ok {
 		res.Instrs[in] = true
+	}
+	if s.stop != nil && s.stop(v) {
+		return
 	}
 	switch x := v.(type) {
 	case *ssa.Const, *ssa.Parameter, *ssa.Global, *ssa.FreeVar, *ssa.Builtin, *ssa.Function:
